@@ -38,8 +38,28 @@ def run(ctx):
     ctx.run_rule("R4-no-plain-store", c08.r5_who, F)
     ctx.run_rule("R5-readdir-references", c08.r2_readdir, F)
     ctx.run_rule("R7-identity-lookup", c08.r7_identity, F)          # the probe that decides "found" vs "insert" (shared with C08)
+    ctx.run_rule("R4-lookup-shape", c08.r4_lookup, F)               # found / inserted / raced arms each count exactly one reference
+    ctx.run_rule("R8-batch-forget-default", batch_forget_default, F)
     ctx.run_rule("R1-entry-pairing", c08.r1_entry_pairing, F)     # a reference the client never received is given back, on that inode
     ctx.assumptions += ["linearizability over all interleavings is not decided (needs schedule exploration, a different technique family)"]
+
+
+def batch_forget_default(ctx, F):
+    """The provided FileSystem::batch_forget (what a backend behind the Vfs gets unless it overrides it) forgets each pair's
+    inode by that pair's count."""
+    b = F.fns.get("api::filesystem::sync_io::FileSystem::batch_forget")
+    if b is None:
+        raise core.Anchor("FileSystem::batch_forget default body")
+    ctx.fn_seen(b)
+    v = vf.VF(b, inline_depth=0, opaque_loops=True)
+    fg = [c for c in live_calls(b) if c.name == "forget"]
+    ok = len(fg) == 1
+    a = []
+    if ok:
+        a = [vf.render(x, b, short=True, vfx=v) for x in v.call_args(fg[0])]
+        el = "some(IntoIter::next(loop(iter)))"
+        ok = a[1:] == ["ctx", el + ".0", el + ".1"] and not [1 for (x, l, u) in v.guards(fg[0].bb) if not vf.render(x, b, short=True, vfx=v).startswith("discr(")]
+    ctx.check("R8-batch-forget-default", "forwards-each-pair", ok, "FileSystem::batch_forget (default) calls forget(%s); required (ctx, inode, count) of every request pair" % ", ".join(a[1:]), loc=b.loc())
 
 
 def r1_cas_loop(ctx, F):
